@@ -103,6 +103,117 @@ func runC06(c *core.Ctx, r *core.Reporter) {
 	c.BuildSSA()
 	c06own(c, r)
 	c06insert(c, r)
+	c06result(c, r)
+}
+
+// alwaysFresh: sequence functions that Common Lisp defines as always returning a newly allocated sequence.
+var alwaysFresh = []string{"reverse", "copy-list", "copy-seq", "copy-alist", "copy-tree", "subseq", "concatenate", "mapcar", "maplist", "butlast", "remove-duplicates"}
+
+// c06result: the result of an always-fresh function is never the argument object itself.
+func c06result(c *core.Ctx, r *core.Reporter) {
+	const rule = "C06.result"
+	r.Rule(rule, "the functions that always return a newly allocated sequence (reverse, copy-list, copy-seq, copy-alist, copy-tree, subseq, concatenate, mapcar, maplist, butlast, remove-duplicates) never return one of their arguments itself: every returned list derives from an allocation in the activation, not from an element of the argument list (a one-element or empty argument handed back as is shares storage with the caller's list)", 6)
+	an := own.New(c, listSink)
+	for _, name := range alwaysFresh {
+		b := c.ByName("pkg/cl", name)
+		if b == nil || b.Call == nil {
+			continue
+		}
+		fn := c.SSAFunc(b.Call)
+		if fn == nil {
+			continue
+		}
+		sum := an.Summary(fn)
+		if sum == nil || len(sum.Ret) == 0 {
+			continue
+		}
+		ret := sum.Ret[0]
+		ep := ret.ElemParams()
+		// only list-typed results matter: find whether a returned value of list type is the argument
+		bad := len(ep) > 0 && returnsArgList(an, fn)
+		r.Decide(!bad, rule, "pkg/cl:"+name, c.Pos(fn.Pos()), fmt.Sprintf("result origins: %s; an argument list can be returned as is: %v", ret.String(), bad))
+	}
+}
+
+func containsFresh(os own.OSet) bool {
+	return strings.Contains(os.String(), "fresh")
+}
+
+// returnsArgList: some returned value is (a type assertion or conversion of) an element of the argument
+// list, of list type, without passing through an allocation.
+func returnsArgList(an *own.Analyzer, fn *ssa.Function) bool {
+	var argsP *ssa.Parameter
+	for _, p := range fn.Params {
+		if isObjectSlice(p.Type()) {
+			argsP = p
+		}
+	}
+	seen := map[ssa.Value]bool{}
+	var isArg func(v ssa.Value, d int) bool
+	isArg = func(v ssa.Value, d int) bool {
+		if v == nil || seen[v] || d > 8 {
+			return false
+		}
+		seen[v] = true
+		switch x := v.(type) {
+		case *ssa.UnOp:
+			if ia, ok := x.X.(*ssa.IndexAddr); ok && ia.X == ssa.Value(argsP) {
+				return true
+			}
+			if al, ok := x.X.(*ssa.Alloc); ok {
+				for _, rf := range *al.Referrers() {
+					if st, ok := rf.(*ssa.Store); ok && st.Addr == ssa.Value(al) && isArg(st.Val, d+1) {
+						return true
+					}
+				}
+			}
+		case *ssa.Phi:
+			for _, e := range x.Edges {
+				if isArg(e, d+1) {
+					return true
+				}
+			}
+		case *ssa.MakeInterface:
+			return isArg(x.X, d+1)
+		case *ssa.ChangeInterface:
+			return isArg(x.X, d+1)
+		case *ssa.TypeAssert:
+			return isArg(x.X, d+1)
+		case *ssa.Extract:
+			if call, ok := x.Tuple.(*ssa.Call); ok {
+				if g := call.Call.StaticCallee(); g != nil && g.Pkg != nil && core.InModule(g.Pkg.Pkg) {
+					// a helper that hands one of the arguments back (getArgs returns the sequence argument)
+					os := an.Origins(x)
+					return len(os.ElemParams()) > 0 && !os.OnlyFresh()
+				}
+			}
+			return isArg(x.Tuple, d+1)
+		case *ssa.Call:
+			if g := x.Call.StaticCallee(); g != nil && g.Pkg != nil && core.InModule(g.Pkg.Pkg) {
+				os := an.Origins(x)
+				if _, shared := os.HasShared(); !shared && len(os.ElemParams()) > 0 {
+					for o := range os {
+						_ = o
+					}
+					return !containsFresh(os)
+				}
+			}
+		case *ssa.Slice:
+			// a reslice shares the argument's storage
+			return isArg(x.X, d+1)
+		case *ssa.ChangeType:
+			return isArg(x.X, d+1)
+		}
+		return false
+	}
+	for _, b := range fn.Blocks {
+		if ret, ok := b.Instrs[len(b.Instrs)-1].(*ssa.Return); ok && len(ret.Results) > 0 {
+			if isArg(ret.Results[0], 0) {
+				return true
+			}
+		}
+	}
+	return false
 }
 
 func c06own(c *core.Ctx, r *core.Reporter) {
